@@ -260,6 +260,69 @@ async fn scale_case(run: usize, kind: &str, size: usize, split_at: usize, out: &
         "replies": replies.iter().map(rv_json).collect::<Vec<_>>(), "undecoded": left, "s": []}));
 }
 
+/// Connections that come and go on ONE buffer pool (as under the real server): a client that dies in the middle
+/// of a frame must leave nothing behind for the connections that reuse its buffer.
+async fn pool_case(run: usize, kind: &str, pool_size: usize, later: usize, out: &mut Out) {
+    use redis_sim::production::verif::{new_buffer_pool, run_connection_with_pool};
+    let state = ShardedActorState::with_config(ShardConfig::with_shards(if run % 2 == 0 { 1 } else { 4 }));
+    let cfg = ConnectionConfig { max_buffer_size: 1 << 20, read_buffer_size: 8192, min_pipeline_buffer: 60, batch_threshold: 2 };
+    let pool = new_buffer_pool(pool_size, 8192);
+    let set = |k: &str, v: &str| (json!({"op": "SET", "k": k, "v": v.as_bytes(), "ex": -1, "px": -1, "nx": false, "xx": false, "get": false, "keepttl": false}), vec![b("SET"), b(k), b(v)]);
+    let get = |k: &str| (json!({"op": "GET", "k": k}), vec![b("GET"), b(k)]);
+    let ping = || (json!({"op": "PING", "has": false, "v": []}), vec![b("PING")]);
+    // the dying client: complete commands, then the beginning of one more
+    let (first, partial): (Vec<(Value, Argv)>, Vec<u8>) = match kind {
+        // a half-sent SET: the next owner of the buffer would complete it with its own bytes
+        "half_set" => (vec![set("foo", "bar")], b"*3\r\n$3\r\nSET\r\n$3\r\nfoo\r\n$20\r\n".to_vec()),
+        // a burst above the buffer size (the buffer grows), then a half-sent APPEND
+        "burst" => (vec![set("big", &"y".repeat(10_000)), set("foo", "bar")], b"*3\r\n$6\r\nAPPEND\r\n$5\r\nstale\r\n$14\r\n".to_vec()),
+        // the same with nothing complete before it (the buffer was never consumed from)
+        "half_set_first" => (vec![], b"*3\r\n$3\r\nSET\r\n$3\r\nfoo\r\n$20\r\n".to_vec()),
+        "half_append_first" => (vec![], b"*3\r\n$6\r\nAPPEND\r\n$5\r\nstale\r\n$14\r\n".to_vec()),
+        // only a few bytes of a header
+        _ => (vec![set("foo", "bar")], b"*2\r\n$3\r\nGE".to_vec()),
+    };
+    let mut cmds: Vec<(Value, Argv)> = Vec::new();
+    let mut all_replies: Vec<RespValue> = Vec::new();
+    let mut undecoded = 0;
+    let mut wire = Vec::new();
+    for (_, a) in &first {
+        wire.extend(encode_argv(a));
+    }
+    wire.extend_from_slice(&partial);
+    let conns: Vec<(Vec<(Value, Argv)>, Vec<u8>)> = std::iter::once((first.clone(), wire))
+        .chain((0..later).map(|i| {
+            let c = if i % 2 == 0 { vec![get("foo"), ping()] } else { vec![ping(), ping(), get("stale")] };
+            let mut w = Vec::new();
+            for (_, a) in &c {
+                w.extend(encode_argv(a));
+            }
+            (c, w)
+        }))
+        .collect();
+    for (c, w) in conns {
+        let written = Arc::new(Mutex::new(Vec::new()));
+        let stream = ScriptedStream { segs: vec![w].into(), written: written.clone(), reads: Arc::new(Mutex::new(0)) };
+        let r = tokio::time::timeout(std::time::Duration::from_secs(20), run_connection_with_pool(stream, state.clone(), cfg.clone(), pool.clone())).await;
+        let bytes = written.lock().unwrap().clone();
+        let (mut replies, left) = decode_all(&bytes);
+        if r.is_err() {
+            replies.push(RespValue::err("HANG connection handler did not finish"));
+        }
+        // a connection's replies must be exactly those of its own commands: pad / cut is visible as a count mismatch below
+        undecoded += left;
+        cmds.extend(c);
+        all_replies.extend(replies);
+    }
+    let final_s = crate::shard_plain::project(&state).await;
+    out.emit(&json!({"t": "pipe", "run": run, "shards": 0, "source": format!("pool/{kind}"), "size": pool_size, "nostate": kind == "burst",
+        "cfg": {"min_pipeline_buffer": cfg.min_pipeline_buffer, "batch_threshold": cfg.batch_threshold, "pool": pool_size, "connections": later + 1},
+        "cmds": cmds.iter().map(|(c, _)| if c["op"] == "SET" && c["k"] == "big" { json!({"op": "SET", "k": "big", "v": [], "ex": -1, "px": -1, "nx": false, "xx": false, "get": false, "keepttl": false}) } else { c.clone() }).collect::<Vec<_>>(),
+        "argv": cmds.iter().map(|(_, a)| a.iter().map(|x| if x.len() > 40 { format!("<{} bytes>", x.len()) } else { String::from_utf8_lossy(x).to_string() }).collect::<Vec<_>>()).collect::<Vec<_>>(),
+        "malformed": false, "junk": [], "bad_at": cmds.len(), "nsegs": later + 1, "nbytes": 0,
+        "replies": all_replies.iter().map(rv_json).collect::<Vec<_>>(), "undecoded": undecoded, "s": final_s}));
+}
+
 /// TLC-generated scenario: frames (GET/SET/INCR/PING/BAD), reads [[n complete frames, fragment?]...]
 async fn replay_case(run: usize, scn: &Value, out: &mut Out) {
     let frames = scn["frames"].as_array().unwrap();
@@ -393,6 +456,18 @@ pub fn main(args: &[String]) -> i32 {
                 let r = catch(|| rt.block_on(scale_case(run, "deep", depth, 0, &mut out)));
                 if let Err(p) = r {
                     out.emit(&json!({"t": "pipe", "run": run, "panic": p, "cmds": [], "replies": [], "malformed": false, "bad_at": 0, "undecoded": 0, "s": []}));
+                }
+            }
+        }
+        Some("pool") => {
+            let mut run = 0;
+            for kind in ["half_set", "half_set_first", "half_append_first", "burst", "header"] {
+                for (pool_size, later) in [(1usize, 3usize), (2, 5), (4, 10), (64, 70)] {
+                    run += 1;
+                    let r = catch(|| rt.block_on(pool_case(run, kind, pool_size, later, &mut out)));
+                    if let Err(p) = r {
+                        out.emit(&json!({"t": "pipe", "run": run, "panic": p, "cmds": [], "replies": [], "malformed": false, "bad_at": 0, "undecoded": 0, "s": []}));
+                    }
                 }
             }
         }
